@@ -29,7 +29,10 @@ def _generic_replay(path):
     opts = v.get("opts", {})
     rec = driver.run_program(v["prog"], prefix, kinds=tuple(opts.get("kinds", "PTK")),
                              kill_code=opts.get("kill_code", -9),
-                             kill_when=opts.get("kill_when"), starve=opts.get("starve"))
+                             kill_when=opts.get("kill_when"), starve=opts.get("starve"), p_scope=opts.get("p_scope"),
+                             t_scope=opts.get("t_scope"), t_when=opts.get("t_when"),
+                             p_when=opts.get("p_when"), t_cur=opts.get("t_cur"),
+                             zero_when=opts.get("zero_when"))
     print(explore.render(rec))
     print("signature on file:", v.get("signature"))
     return 0
